@@ -527,6 +527,15 @@ def run_shard(shard, ctx):
             data = tame(data)
             check_case({"data": data, "seed_kind": "junk", "fault": "none:junk", "calls": calls_for(rng, "junk", data, tier) + [("artifactkit", "default")] * (n < 3000)}, ctx)
     elif kind == "http":
+        # header lines of every awkward shape, in every position (first, middle, last) of requests and responses
+        odd = [b":", b": ", b":authority: x", b": value", b"::", b"\x3aName: v", b"NoColon", b"", b" ", b"\t", b"K:", b"K: ", b"K:  v ", b"\x00: \x00", b"\xff\xfe: \x80"]
+        for start in (b"GET /a HTTP/1.1", b"HTTP/1.1 200 OK", b"BAD"):
+            for line in odd:
+                for pos in range(3):
+                    hdrs = [b"A: 1", b"B: 2"]
+                    hdrs.insert(pos, line)
+                    data = start + b"\r\n" + b"\r\n".join(hdrs) + b"\r\n\r\nbody"
+                    check_case({"data": data, "seed_kind": "http", "fault": f"header-line={line!r}@{pos}", "calls": [("parse_raw_http", "default")]}, ctx)
         for _ in range(shard["n"]):
             if ctx.out_of_time():
                 break
